@@ -1043,6 +1043,7 @@ func (m *Machine) rangeIter(x Value) *RangeIter {
 		return &RangeIter{str: &v}
 	case *MapObj:
 		it := &RangeIter{m: v}
+		m.resolveLazy(v)
 		if v != nil {
 			for i := range v.entries {
 				if !v.entries[i].deleted {
@@ -1194,6 +1195,7 @@ func (m *Machine) callBuiltin(caller *frame, b *ssa.Builtin, args []Value, site 
 			if x == nil {
 				return boxInt(64, 0)
 			}
+			m.resolveLazy(x)
 			return boxInt(64, uint64(x.n))
 		case *ChanObj:
 			if x == nil {
